@@ -266,8 +266,17 @@ pub fn targets(env: &Env) -> Vec<Target> {
             ("order-4 point (i,0)", i.clone(), u(0)),
             ("order-4 point (-i,0)", f.neg(&i), u(0)),
         ];
+        type AffinePoint = <Element as ark_ec::CurveGroup>::Affine;
         for (n, x, y) in bad {
             let e = el_from_big(&x, &y, &u(1), &f.mul(&x, &y));
+            // the same coordinates offered through the AffinePoint allocation form
+            let ap = AffinePoint::verif_from_coords_unchecked(fq(&x), fq(&y));
+            ts.push(Target {
+                name: "new_witness(AffinePoint) with invalid coordinates".into(),
+                input: n.to_string(),
+                run: Box::new(move |cs| Ok(xy_of(&<ElementVar as AllocVar<AffinePoint, Fq>>::new_witness(cs.clone(), || Ok(ap))?))),
+                native: Native::ValidOnly,
+            });
             // also a point of E \ 2E: G' = G + (i,0)
             ts.push(Target {
                 name: "new_witness(Element) with invalid coordinates".into(),
@@ -279,6 +288,28 @@ pub fn targets(env: &Env) -> Vec<Target> {
         let o4 = Pt { x: i, y: u(0) };
         let outside = dc.c.add(&g, &o4);
         let e = el_from_pt(&outside, f);
+        // points of E outside 2E (on the curve, so only the group-membership part of the witness
+        // check can reject them), through the AffinePoint form: G + T4, H + T4, 2G + T4'
+        {
+            let h = dc.elligator_spec(&u(1));
+            let o4b = Pt { x: f.neg(&o4.x), y: u(0) };
+            for (n, p) in [("G + order-4 point (in E, outside 2E)", outside.clone()), ("H + order-4 point", dc.c.add(&h, &o4)), ("2G + the other order-4 point", dc.c.add(&dc.c.add(&g, &g), &o4b))] {
+                let ap = AffinePoint::verif_from_coords_unchecked(fq(&p.x), fq(&p.y));
+                ts.push(Target {
+                    name: "new_witness(AffinePoint) with invalid coordinates".into(),
+                    input: n.to_string(),
+                    run: Box::new(move |cs| Ok(xy_of(&<ElementVar as AllocVar<AffinePoint, Fq>>::new_witness(cs.clone(), || Ok(ap))?))),
+                    native: Native::ValidOnly,
+                });
+                let e2 = el_from_pt(&p, f);
+                ts.push(Target {
+                    name: "new_witness(Element) with invalid coordinates".into(),
+                    input: format!("{n} (Element form)"),
+                    run: Box::new(move |cs| Ok(xy_of(&<ElementVar as AllocVar<Element, Fq>>::new_witness(cs.clone(), || Ok(e2))?))),
+                    native: Native::ValidOnly,
+                });
+            }
+        }
         ts.push(Target {
             name: "new_witness(Element) with invalid coordinates".into(),
             input: "G + order-4 point (in E, outside 2E)".into(),
